@@ -255,14 +255,22 @@ def r6_pairing(repo, rep, cls):
   g = cfgmod.CFG(f.node)
   rd = dataflow.Reaching(g)
   n_pairs = 0
+  # index contexts: for-loops and comprehensions binding an integer index
+  contexts = []     # (index variable, [(cfg node, subtree)])
   for loop in [n for n in g.nodes if n.kind == 'for']:
-    iv = norm(loop.ast.target)
-    body = g.loop_body_nodes(loop)
+    contexts.append((norm(loop.ast.target), [(n, n.ast) for n in g.loop_body_nodes(loop) if n.kind == 'stmt']))
+  for n in g.nodes:
+    if n.kind not in ('stmt', 'return') or n.ast is None or isinstance(n.ast, (ast.FunctionDef, ast.ClassDef)):
+      continue
+    for comp in ast.walk(n.ast):
+      if isinstance(comp, (ast.ListComp, ast.SetComp, ast.DictComp, ast.GeneratorExp)):
+        for gen in comp.generators:
+          if isinstance(gen.target, ast.Name):
+            contexts.append((gen.target.id, [(n, comp)]))
+  for iv, parts in contexts:
     rows, labels = [], []
-    for n in body:
-      if n.kind != 'stmt':
-        continue
-      for sub in walk_no_nested(n.ast):
+    for n, tree in parts:
+      for sub in ast.walk(tree):
         if isinstance(sub, ast.Subscript) and norm(sub.slice) == iv:
           if isinstance(sub.value, ast.Attribute) and sub.value.attr == 'iloc':
             rows.append((n, sub.value.value))
